@@ -252,10 +252,92 @@ func leanStrs(set map[string]bool) string {
 	return "[" + strings.Join(xs, ", ") + "]"
 }
 
+// canon prints a statement with its loops over a slice in one canonical form, so that
+//   for i, e := range X { … e … i … }     and     for i := 0; i < len(X); i++ { … X[i] … i … }
+// (and any choice of the two variable names) compare equal:  for $i, $e := range X { … $e … $i … }.
+// Only loops directly at the statement's top level or nested in its blocks are rewritten (textually, on whole
+// identifiers).
+func canon(s ast.Stmt) string {
+	switch s := s.(type) {
+	case *ast.RangeStmt:
+		body := canonBlock(s.Body)
+		if s.Tok == token.DEFINE {
+			if s.Value != nil && src(s.Value) != "_" {
+				body = replaceIdent(body, src(s.Value), "$e")
+			}
+			if s.Key != nil && src(s.Key) != "_" {
+				body = replaceIdent(body, src(s.Key), "$i")
+			}
+			return "for $i, $e := range " + src(s.X) + " " + body
+		}
+	case *ast.ForStmt:
+		// for i := 0; i < len(X); i++ { … }
+		if as, ok := s.Init.(*ast.AssignStmt); ok && as.Tok == token.DEFINE && len(as.Lhs) == 1 && len(as.Rhs) == 1 && src(as.Rhs[0]) == "0" {
+			i := src(as.Lhs[0])
+			if inc, ok := s.Post.(*ast.IncDecStmt); ok && inc.Tok == token.INC && src(inc.X) == i {
+				if be, ok := s.Cond.(*ast.BinaryExpr); ok && be.Op == token.LSS && src(be.X) == i {
+					if call, ok := be.Y.(*ast.CallExpr); ok && src(call.Fun) == "len" && len(call.Args) == 1 {
+						x := src(call.Args[0])
+						body := canonBlock(s.Body)
+						body = strings.Replace(body, x+"["+i+"]", "$e", -1)
+						body = replaceIdent(body, i, "$i")
+						return "for $i, $e := range " + x + " " + body
+					}
+				}
+			}
+		}
+		return "for " + src(s.Init) + "; " + src(s.Cond) + "; " + src(s.Post) + " " + canonBlock(s.Body)
+	case *ast.IfStmt:
+		out := "if "
+		if s.Init != nil {
+			out += src(s.Init) + "; "
+		}
+		out += src(s.Cond) + " " + canonBlock(s.Body)
+		if s.Else != nil {
+			out += " else " + canon(s.Else)
+		}
+		return out
+	case *ast.BlockStmt:
+		return canonBlock(s)
+	}
+	return src(s)
+}
+
+func canonBlock(b *ast.BlockStmt) string {
+	parts := make([]string, len(b.List))
+	for i, s := range b.List {
+		parts[i] = canon(s)
+	}
+	if len(parts) == 0 {
+		return "{}"
+	}
+	return "{ " + strings.Join(parts, "; ") + " }"
+}
+
+func isIdentByte(c byte) bool {
+	return c == '_' || c == '$' || c >= '0' && c <= '9' || c >= 'a' && c <= 'z' || c >= 'A' && c <= 'Z'
+}
+
+// replaceIdent replaces whole-identifier occurrences of name that are not selected fields (`x.name`)
+func replaceIdent(text, name, by string) string {
+	var b strings.Builder
+	for i := 0; i < len(text); {
+		if strings.HasPrefix(text[i:], name) && (i == 0 || (!isIdentByte(text[i-1]) && text[i-1] != '.')) &&
+			(i+len(name) == len(text) || !isIdentByte(text[i+len(name)])) {
+			b.WriteString(by)
+			i += len(name)
+			continue
+		}
+		b.WriteByte(text[i])
+		i++
+	}
+	return b.String()
+}
+
 func stmtsSrc(l []ast.Stmt) []string {
 	out := make([]string, len(l))
 	for i, s := range l {
-		out[i] = src(s)
+		out[i] = canon(s)
 	}
 	return out
 }
@@ -371,10 +453,13 @@ func genStringHash() string {
 					}
 				}
 			}
-			if i+2 < len(is.Body.List) && sameSrc(is.Body.List[i:i+3],
+			if i+2 < len(is.Body.List) && (sameSrc(is.Body.List[i:i+3],
 				"ne := make([]stringEntry, len("+dr+".entries)-1)",
-				"for i, e := range "+dr+".entries { if i < p { ne[i] = e } else if i > p { ne[i-1] = e } }",
-				dr+".entries = ne") {
+				"for $i, $e := range "+dr+".entries { if $i < p { ne[$i] = $e } else if $i > p { ne[$i-1] = $e } }",
+				dr+".entries = ne") || sameSrc(is.Body.List[i:i+3],
+				"ne := make([]stringEntry, 0, len("+dr+".entries)-1)",
+				"for $i, $e := range "+dr+".entries { if $i != p { ne = append(ne, $e) } }",
+				dr+".entries = ne")) {
 				cut = true
 			}
 		}
@@ -399,7 +484,7 @@ func genStringHash() string {
 			"entries := make([]stringEntry, len("+cr+".entries))",
 			"copy(entries, "+cr+".entries)",
 			"index := make(map[string]int, len("+cr+".index))",
-			"for k, v := range "+cr+".index { index[k] = v }")
+			"for $i, $e := range "+cr+".index { index[$i] = $e }")
 		switch src(cp.Body.List[4]) {
 		case "return &stringHash{entries, index, false}":
 			copyFrozen = "some false"
@@ -413,7 +498,7 @@ func genStringHash() string {
 	mergeOK := sameSrc(mg.Body.List, "merged = "+mr+".Copy()", "merged.PutAll(other)", "return")
 	pa := need("PutAll")
 	par := recvName(pa)
-	putAllOK := sameSrc(pa.Body.List, "for _, e := range other.(*stringHash).entries { "+par+".Put(e.key, e.value) }")
+	putAllOK := sameSrc(pa.Body.List, "for $i, $e := range other.(*stringHash).entries { "+par+".Put($e.key, $e.value) }")
 	g := need("Get")
 	gr := recvName(g)
 	getOK := sameSrc(g.Body.List, "if p, ok := "+gr+".index[key]; ok { return "+gr+".entries[p].value, true }", "return nil, false")
